@@ -472,9 +472,7 @@ func (e *Encoder) encodeLong(b *big.Int) error {
 
 func (e *Encoder) encodeMap(m reflect.Value) error {
 
-	keys := m.MapKeys()
-
-	l := len(keys)
+	l := m.Len()
 
 	// protocol >= 1: ø dict -> EMPTY_DICT
 	if e.config.Protocol >= 1 && l == 0 {
@@ -489,14 +487,14 @@ func (e *Encoder) encodeMap(m reflect.Value) error {
 		return err
 	}
 
-	for _, k := range keys {
-		err = e.encode(k)
+	// NOTE MapRange, not MapKeys + MapIndex: lookup of NaN key never succeeds
+	for it := m.MapRange(); it.Next(); {
+		err = e.encode(it.Key())
 		if err != nil {
 			return err
 		}
-		v := m.MapIndex(k)
 
-		err = e.encode(v)
+		err = e.encode(it.Value())
 		if err != nil {
 			return err
 		}
